@@ -112,7 +112,7 @@ def build_harness(scratch, race=False, tags="verifsim"):
             INLINE_ARGS.update(new)
             prepare_tree(scratch)
             return build_harness(scratch, race=race, tags=tags)
-        if not NO_NETSHIM[0] and _re.search(r"verifsim/(snet|stls)|/repo/transport/(tcp|ipc|tlstcp)/", r.stdout):
+        if not NO_NETSHIM[0] and _re.search(r"verifsim/(snet|stls|swebsocket)|/repo/transport/(tcp|ipc|tlstcp|ws|wss)/", r.stdout):
             NO_NETSHIM[0] = True
             sys.stderr.write("note: the tree does not build with package net behind verifsim/snet; falling back to the stand-in stream transports\n")
             prepare_tree(scratch)
